@@ -26,7 +26,10 @@ RULE = ("fault injection by real process kill: the component under test (server,
         "Recovery = what a user would do: restart the component on the same directory, re-run the interrupted command (a step "
         "refused as 'already ...' counts as done; an interrupted create-service, which never returned a sid, is run again), finish "
         "the workflow. Oracle: after a server crash a new connection gets an ok init echo whose state matches the files on disk; "
-        "the workflow reaches the search stage; every search equals DB[w]. Non-trivial = the child really died at the requested "
+        "the workflow reaches the search stage; every search equals DB[w]. Raw-protocol variant: the server dies at every point of a raw "
+        "client's configuration upload; afterwards the service must behave as in the state BEFORE the step (any configuration - the "
+        "other one is offered - is accepted and is the one in force for all later searches) or AFTER it (the first one is in force, "
+        "the other is refused). Non-trivial = the child really died at the requested "
         "mutation (confirmed from its event log and exit status 137); distinct = distinct (component, operation, mutation, mode).")
 ASSUMPTIONS = ["power-loss reordering below the file system (no fsync modelling) and disk-full are out of reach",
                "client and server use separate scratch HOME directories; each CLI command is a fresh Service loaded from disk",
@@ -187,8 +190,142 @@ def check_completion(base, out, what):
                             "wrong_result_after_recovery")
 
 
+async def _raw_recovery(uri, sid, fx, first, probe_first, what, scheme):
+    """after a server crash during the upload of configuration c<first> by a raw-protocol client: the service is in the state BEFORE
+    the step (then it must behave like a service nobody configured: any configuration - here the OTHER one - is accepted and is the
+    one in force from then on) or AFTER it (then c<first> is in force and the other one is refused)"""
+    import hashlib
+    import pickle as _p
+    from props import c10
+    from vlib import rig
+
+    async def connect():
+        rc = await rig.RawClient(uri, sid).connect()
+        m = await rc.recv(timeout=15)
+        dec = m.get("decoded") if isinstance(m, dict) else None
+        if m.get("type") != "init" or not isinstance(dec, dict) or dec.get("ok") is not True:
+            raise Violation("%s: %s: after the restart a new connection gets no ok init echo (%r)" % (scheme, what, {k: m.get(k) for k in ("type", "decoded", "code")}),
+                            "handshake_fails_after_server_crash")
+        return rc, dec.get("state")
+
+    async def request(rc, mtype, content, **extra):
+        await rc.send(mtype, content, **extra)
+        while True:
+            m = await rc.recv(timeout=15)
+            if m["type"] != "control":
+                return m
+
+    def accepted(m, mtype):
+        return m.get("type") == mtype and isinstance(m.get("decoded"), dict) and m["decoded"].get("ok") is True
+
+    if probe_first:
+        rc, _ = await connect()     # a look at the state, nothing else
+        await rc.close()
+        await asyncio.sleep(0.3)
+    rc, st = await connect()
+    other = 2 if first == 1 else 1
+    if st not in (0, 1):
+        raise Violation("%s: %s: init echo reports state %r after a crash during the configuration upload" % (scheme, what, st), "raw:impossible_state")
+    in_force = first
+    if st == 0:
+        m = await request(rc, "config", _p.dumps(fx["c"][other]))
+        if not accepted(m, "config"):
+            raise Violation("%s: %s: the service reports state 0 (not configured) but refuses a configuration (%r)" % (
+                scheme, what, (m.get("type"), m.get("decoded"), m.get("code"))), "raw:state_before_but_config_refused")
+        in_force = other
+    else:
+        m = await request(rc, "config", _p.dumps(fx["c"][other]))
+        if accepted(m, "config"):
+            raise Violation("%s: %s: the service reports state 1 (configured) but accepts another configuration" % (scheme, what), "raw:state_after_but_config_replaced")
+        await rc.close()
+        await asyncio.sleep(0.3)
+        rc, st2 = await connect()
+        if st2 != 1:
+            raise Violation("%s: %s: state %r after a refused configuration, expected 1" % (scheme, what, st2), "raw:state_moved")
+    m = await request(rc, "upload_edb", fx["e"][1])
+    if not accepted(m, "upload_edb"):
+        raise Violation("%s: %s: index upload refused in state 1 (%r)" % (scheme, what, (m.get("type"), m.get("decoded"), m.get("code"))), "raw:upload_refused")
+    for round_ in (0, 1):
+        for w in (b"alpha", b"beta"):
+            tok = fx["tok"][w]
+            want = c10.local_answer(fx, fx["c"][in_force], fx["e"][1], tok)
+            m = await request(rc, "token", tok, token_digest=hashlib.sha256(tok).digest())
+            if want is None:
+                if m.get("type") == "result":
+                    with contextlib.suppress(Exception):
+                        if isinstance(_p.loads(m["content"]), dict):
+                            continue
+                    raise Violation("%s: %s: a search that cannot be computed under the configuration in force was answered" % (scheme, what), "raw:impossible_answer")
+                if m.get("type") == "__closed__":
+                    rc, _ = await connect()
+                continue
+            got = None
+            if m.get("type") == "result":
+                with contextlib.suppress(Exception):
+                    got = _p.loads(m["content"])
+            if got != want:
+                raise Violation("%s: %s: search for %r on %s answers %r, but under the configuration in force (c%d, accepted %s the crash) the answer is %r" % (
+                    scheme, what, w, "the same connection" if round_ == 0 else "a new connection", got, in_force,
+                    "after" if in_force != first else "before/at", want), "raw:answer_not_from_configuration_in_force")
+        await rc.close()
+        await asyncio.sleep(0.3)
+        if round_ == 0:
+            rc, st3 = await connect()
+            if st3 != 2:
+                raise Violation("%s: %s: state %r on a new connection after config and index were accepted" % (scheme, what, st3), "raw:state_not_ready")
+
+
+def run_raw_scenario(sc, info):
+    """server killed at a point of handle_upload_config while a RAW client uploads one configuration; afterwards a raw client goes on
+    with the other configuration (see _raw_recovery)"""
+    import hashlib
+    import pickle as _p
+    from props import c10
+    from vlib import rig
+    scheme = sc["scheme"]
+    fx = c10.fixtures(scheme, 1)
+    work = tempfile.mkdtemp(prefix="ssepy-c13-")
+    home_s = os.path.join(work, "srv")
+    os.makedirs(home_s)
+    procs = []
+    sid = hashlib.sha256(("c13raw/%s/%s/%s" % (scheme, sc["at"], sc["mode"])).encode()).hexdigest()
+    what = "server crash handle_upload_config#1 event %s (%s), raw client uploading c%d%s" % (sc["at"], sc["mode"], sc["first"], ", probe first" if sc["probe"] else "")
+    try:
+        srvA = start_server(home_s, work, "srvA", arm="handle_upload_config", arm_call=1, crash={"at": sc["at"], "mode": sc["mode"]})
+        procs.append(srvA)
+
+        async def first_upload():
+            rc = await rig.RawClient(srvA.uri, sid).connect()
+            await rc.recv(timeout=15)
+            await rc.send("config", _p.dumps(fx["c"][sc["first"]]))
+            await rc.recv(timeout=5)
+            await rc.close()
+        with contextlib.suppress(Exception):
+            asyncio.run(first_upload())
+        t0 = time.time()
+        while srvA.p.poll() is None and time.time() - t0 < 3.0:
+            time.sleep(0.02)
+        info["crashed"] = srvA.p.poll() == 137
+        events, _ = _read_log(srvA)
+        info["event"] = _event_of(events, sc["at"])
+        srvA.kill()
+        srvB = start_server(home_s, work, "srvB")
+        procs.append(srvB)
+        asyncio.run(_raw_recovery(srvB.uri, sid, fx, sc["first"], sc["probe"], what + " [%s]" % info["event"], scheme))
+        return info
+    finally:
+        for p in procs:
+            p.kill()
+        _t = other_device_tmp(work, create=False)
+        shutil.rmtree(work, ignore_errors=True)
+        if _t:
+            shutil.rmtree(_t, ignore_errors=True)
+
+
 def run_scenario(sc, info=None):
     """one crash scenario; fills and returns the info dict; raises Violation"""
+    if sc.get("component") == "server_raw":
+        return run_raw_scenario(sc, info if info is not None else {})
     base = dict(sc["base"])
     base["_seed"] = "%s/%s/%s/%s/%s" % (sc["component"], sc.get("op") or sc.get("handler"), sc.get("arm_call"), sc["at"], sc["mode"])
     scheme = base["scheme"]
@@ -386,6 +523,9 @@ def scenarios_for(base, dry):
     return scs
 
 
+_DRY_CACHE = {}
+
+
 def shards(tier):
     schemes = ["CJJ14.PiBas"] if tier == "quick" else ["CJJ14.PiBas", "CJJ14.Pi2Lev", "DP17.Pi"]
     dbs = [0] if tier == "quick" else [0, 1, 2]
@@ -394,6 +534,8 @@ def shards(tier):
         for dbi in dbs:
             base = scenario_base(s, dbi)
             dry = dry_run(base)
+            if dbi == 0:
+                _DRY_CACHE[s] = dry
             scs = scenarios_for(base, dry)
             out.extend(scs)
             # double crashes: the server dies again while the interrupted upload is being repeated
@@ -407,6 +549,17 @@ def shards(tier):
                     d["second"] = {"at": x["at"], "mode": x["mode"], "what": x["what"]}
                     d["what"] = sc["what"] + " then " + x["what"] + "(" + x["mode"] + ")"
                     out.append(d)
+    # raw-protocol recoveries: the server dies at every point of the configuration upload of a RAW client; afterwards the other
+    # configuration is offered (state before = a service nobody configured; state after = the first configuration is in force)
+    raw_schemes = ["CJJ14.PiPack"] if tier == "quick" else ["CJJ14.PiPack", "DP17.Pi", "CJJ14.PiPtr"]
+    for s in raw_schemes:
+        if s not in _DRY_CACHE:
+            _DRY_CACHE[s] = dry_run(scenario_base(s, 0))
+        events = _DRY_CACHE[s]["server"].get("handle_upload_config#1", [])
+        for j, (idx, mode, e) in enumerate(select_points(events)):
+            out.append({"component": "server_raw", "scheme": s, "base": {"scheme": s, "db": []}, "handler": "handle_upload_config", "arm_call": 1,
+                        "at": idx, "mode": mode, "first": 2 if j % 2 == 0 else 1, "probe": j % 3 != 0,
+                        "what": "raw %s %s" % (e["kind"], os.path.basename(e["path"]))})
     # group into at most 16 shards, round robin
     n = 16
     groups = [[] for _ in range(n)]
